@@ -33,10 +33,11 @@ func TestMain(m *testing.M) {
 		"replaced by a boundary or random value of the same width (0, 1, 0xff.., 0x7f.., 0x80.., +-1; 4-byte lengths up to 2^27), or truncated (at field boundaries +-1 or anywhere), or with a byte deleted/inserted, or with trailing garbage; " +
 		"format packages followed by arbitrary row bytes; everything parsed like the channel does (token, LookupPackage, LastPkg, ReadFrom on a real PacketQueue) until an error or the end; " +
 		"channel level: such streams (and arbitrary bytes) cut into packets with arbitrary header fields (length 0..7, length != 8+len(data), all types/status bits/channels) into Channel.WritePacket, " +
-		"and as raw byte streams in arbitrary read partitions into Conn.ReadFrom; ENVCHANGE packet sizes 0,1,7,8,9,65535,65536,65544,70000,-5,abc,...; afterwards one SendPackage. " +
+		"and as raw byte streams in arbitrary read partitions into Conn.ReadFrom; packages announcing huge counts or lengths delivered one byte per packet; ENVCHANGE packet sizes 0,1,7,8,9,65535,65536,65544,70000,-5,abc,...; afterwards one SendPackage. " +
 		"Non-trivial: the input is not a valid encoding and the parser got past the first field (the corrupted span is not the token); distinct by (token, corrupted span kind and replacement class, outcome class), " +
 		"value level by (type, length, outcome)")
-	vh.Assume("panics are recovered by the harness and classified by the top-most library frame and the kind of runtime error; allocation is runtime.MemStats.TotalAlloc around the call, measured only when a length of 2^16 or more was requested from the queue or written into a length field (bound: 64 x input bytes + 4 MiB); " +
+	vh.Assume("panics are recovered by the harness and classified by the top-most library frame and the kind of runtime error; allocation is runtime.MemStats.TotalAlloc around the call (bound: 64 x input bytes + 4 MiB), measured at channel level for every case and at package level when a length of 2^16 or more was requested from the queue or written into a length field; " +
+		"at channel level a consumer goroutine drains the error and package queues all the time (a full 10-slot error queue blocks the reader by design; that is not counted as a hang); " +
 		"if PacketQueue.Bytes is found (by a 2^27 probe) to allocate before it checks availability, requests above 2^27 are not executed but counted as excluded under that class (a 4 GiB make per case would endanger the sandbox); " +
 		"CPU spin of Packet.ReadFrom on io.EOF inside a body is bounded by the read timeout and belongs to C14; Package.String() of parsed packages and KeyPackage (not reachable through LookupPackage) are not exercised")
 	if fuzzing() {
